@@ -417,6 +417,214 @@ fn check_debug<const N: usize>(b: &Bitset<N>, exp: &str) -> Result<(), (&'static
     Ok(())
 }
 
+// ---------------------------------------------------------------------------------------------
+// the iterator protocol: every way of consuming iter_bits() against the SAME consumption (the same generic
+// code) of the model's ascending list
+
+/// One way of consuming an iterator that has already yielded `pre` items through `next()`.
+#[derive(Clone, Copy, Debug)]
+enum Use {
+    /// nth(k), next(), nth(k), next()
+    Nth(usize),
+    /// the first three items of by_ref().skip(k), then next()
+    Skip(usize),
+    /// every item of step_by(s)
+    StepBy(usize),
+    /// every item of by_ref().take(k), then next()
+    Take(usize),
+    Last,
+    Count,
+    /// fold to (number of items, order-sensitive digest of the items)
+    Fold,
+    /// next() until None (counted), then next(), next(), nth(0), nth(2), by_ref().count(), last()
+    Exhaust,
+}
+
+const USES: [&str; 9] = ["iter_size_hint", "iter_nth", "iter_skip", "iter_step_by", "iter_take", "iter_last", "iter_count", "iter_fold", "iter_exhausted"];
+const STEPS: [usize; 5] = [1, 2, 3, 64, 65];
+
+impl Use {
+    /// index into `USES`
+    fn family(self) -> usize {
+        match self {
+            Use::Nth(_) => 1,
+            Use::Skip(_) => 2,
+            Use::StepBy(_) => 3,
+            Use::Take(_) => 4,
+            Use::Last => 5,
+            Use::Count => 6,
+            Use::Fold => 7,
+            Use::Exhaust => 8,
+        }
+    }
+
+    fn text(self) -> String {
+        match self {
+            Use::Nth(k) => format!("[nth({k}), next(), nth({k}), next()]"),
+            Use::Skip(k) => format!("the first three items of by_ref().skip({k}), then next()"),
+            Use::StepBy(s) => format!("the items of step_by({s})"),
+            Use::Take(k) => format!("the items of by_ref().take({k}), then next()"),
+            Use::Last => "[last()]".into(),
+            Use::Count => "[count()]".into(),
+            Use::Fold => "fold to [number of items, digest of the items in order]".into(),
+            Use::Exhaust => "[items until the first None, next(), next(), nth(0), nth(2), by_ref().count(), last()]".into(),
+        }
+    }
+}
+
+/// What the consumption observes, in order (a number is written as Some(number)).  `cap` bounds what is
+/// collected from an iterator that does not end.
+fn consume<I: Iterator<Item = usize>>(mut it: I, pre: usize, u: Use, cap: usize) -> Vec<Option<usize>> {
+    for _ in 0..pre {
+        it.next();
+    }
+    match u {
+        Use::Nth(k) => vec![it.nth(k), it.next(), it.nth(k), it.next()],
+        Use::Skip(k) => {
+            let mut v: Vec<Option<usize>> = it.by_ref().skip(k).take(3).map(Some).collect();
+            v.push(it.next());
+            v
+        }
+        Use::StepBy(s) => it.step_by(s).take(cap).map(Some).collect(),
+        Use::Take(k) => {
+            let mut v: Vec<Option<usize>> = it.by_ref().take(k).map(Some).collect();
+            v.push(it.next());
+            v
+        }
+        Use::Last => vec![it.last()],
+        Use::Count => vec![Some(it.count())],
+        Use::Fold => {
+            let (n, h) = it.fold((0usize, 0usize), |(n, h), x| (n + 1, h.wrapping_mul(1_000_003).wrapping_add(x + 1)));
+            vec![Some(n), Some(h)]
+        }
+        Use::Exhaust => {
+            let mut n = 0;
+            while n < cap && it.next().is_some() {
+                n += 1;
+            }
+            vec![Some(n), it.next(), it.next(), it.nth(0), it.nth(2), Some(it.by_ref().count()), it.last()]
+        }
+    }
+}
+
+/// Positions whose ranks in the ascending list are the interesting starting points and targets of
+/// nth / skip: `boundary_positions`, and for N <= 10 also the three positions around every word boundary.
+fn protocol_marks(n: usize) -> Vec<usize> {
+    let words = if is_large(n) { 0 } else { n };
+    below(64 * n, boundary_positions(n).into_iter().chain((1..words).flat_map(|w| [64 * w - 1, 64 * w, 64 * w + 1])))
+}
+
+/// (small, ranks): small = {0,1,2,3,L-1,L,L+1}; ranks = small, L-2 and r-1, r, r+1 for the rank r (number of
+/// smaller members) of every mark; all <= L+1 (L+1: one more than what is left).
+fn protocol_ranks(members: &[usize], marks: &[usize]) -> (Vec<usize>, Vec<usize>) {
+    let l = members.len();
+    let small = below(l + 2, [0, 1, 2, 3, l.saturating_sub(1), l, l + 1]);
+    let at_marks = marks.iter().flat_map(|&p| {
+        let r = members.partition_point(|&x| x < p);
+        [r.saturating_sub(1), r, r + 1]
+    });
+    let ranks = below(l + 2, small.iter().copied().chain([l.saturating_sub(2)]).chain(at_marks));
+    (small, ranks)
+}
+
+/// per entry of `USES`: cases compared
+static PROTOCOL_CASES: [AtomicU64; 9] = [const { AtomicU64::new(0) }; 9];
+static PROTOCOL_STATES: AtomicU64 = AtomicU64::new(0);
+/// nth cases that start behind a yielded member in the middle of a word and end in a later word or behind the end
+static NTH_LEAVING_A_STARTED_WORD: AtomicU64 = AtomicU64::new(0);
+
+fn short(v: &[Option<usize>]) -> String {
+    if v.len() <= 12 {
+        format!("{v:?}")
+    } else {
+        format!("{:?} and {} more", &v[..12], v.len() - 12)
+    }
+}
+
+/// Every standard way of consuming `b.iter_bits()` must see the ascending list of the set: Err((family, message)).
+fn iter_protocol<const N: usize>(b: &Bitset<N>, m: &[bool], marks: &[usize]) -> Result<(), (&'static str, String)> {
+    PROTOCOL_STATES.fetch_add(1, Ordering::Relaxed);
+    let cap = 64 * N + 2;
+    let members: Vec<usize> = (0..64 * N).filter(|&i| m[i]).collect();
+    let l = members.len();
+    let (small, ranks) = protocol_ranks(&members, marks);
+    let mut cases = [0u64; 9];
+
+    // size_hint: lower <= what is left <= upper, before every next() of a full walk and after nth(k) on a fresh iterator
+    fn hint<I: Iterator>(it: &I, left: usize, after: &str, arg: usize) -> Result<(), String> {
+        let (lo, hi) = it.size_hint();
+        if lo > left || hi.is_some_and(|h| h < left) {
+            return Err(format!("iter_bits() after {after}({arg}): size_hint() = ({lo}, {hi:?}) but {left} items are left"));
+        }
+        Ok(())
+    }
+    PROGRESS.fetch_add(1, Ordering::Relaxed);
+    let walked = catch(|| {
+        let mut it = b.iter_bits();
+        for j in 0..=l + 1 {
+            hint(&it, l.saturating_sub(j), "next() x ", j)?;
+            it.next();
+        }
+        for &k in &ranks {
+            let mut it = b.iter_bits();
+            it.nth(k);
+            hint(&it, l.saturating_sub(k + 1), "nth", k)?;
+        }
+        Ok(())
+    });
+    cases[0] += (l + 2 + ranks.len()) as u64;
+    match walked {
+        Ok(Ok(())) => {}
+        Ok(Err(msg)) => return Err((USES[0], msg)),
+        Err(p) => return Err((USES[0], format!("size_hint() / next() / nth() on iter_bits() panicked: {p}"))),
+    }
+
+    let mut judge = |pre: usize, u: Use| -> Result<(), (&'static str, String)> {
+        cases[u.family()] += 1;
+        let exp = consume(members.iter().copied(), pre, u, cap);
+        let fam = USES[u.family()];
+        let head = || format!("iter_bits() of the set with {l} members, after {pre} next() calls: {}", u.text());
+        match catch(|| consume(b.iter_bits(), pre, u, cap)) {
+            Ok(got) if got == exp => Ok(()),
+            Ok(got) => Err((fam, format!("{} gave {}, the ascending list of the set gives {}", head(), short(&got), short(&exp)))),
+            Err(p) => Err((fam, format!("{} panicked: {p}", head()))),
+        }
+    };
+    let mut leaving = 0u64;
+    for (a, &j) in ranks.iter().enumerate() {
+        PROGRESS.fetch_add(1, Ordering::Relaxed);
+        for &t in &ranks[a..] {
+            judge(j, Use::Nth(t - j))?;
+            if j >= 1 && j <= l && members[j - 1] % 64 != 63 && (t >= l || members[t] / 64 > members[j - 1] / 64) {
+                leaving += 1;
+            }
+        }
+    }
+    PROGRESS.fetch_add(1, Ordering::Relaxed);
+    for &j in &small {
+        for &k in &ranks {
+            judge(j, Use::Skip(k))?;
+        }
+    }
+    PROGRESS.fetch_add(1, Ordering::Relaxed);
+    for &j in &small {
+        for s in STEPS {
+            judge(j, Use::StepBy(s))?;
+        }
+        for &k in &small {
+            judge(j, Use::Take(k))?;
+        }
+        for u in [Use::Last, Use::Count, Use::Fold, Use::Exhaust] {
+            judge(j, u)?;
+        }
+    }
+    for (c, n) in PROTOCOL_CASES.iter().zip(cases) {
+        c.fetch_add(n, Ordering::Relaxed);
+    }
+    NTH_LEAVING_A_STARTED_WORD.fetch_add(leaving, Ordering::Relaxed);
+    Ok(())
+}
+
 #[derive(Clone)]
 struct St<const N: usize> {
     b: Bitset<N>,
